@@ -10,7 +10,7 @@ cd $WT
 cp _seed/patch.diff _seed/meta.json $OUT/; cp _seed/demo.diff $OUT/ 2>/dev/null || true; cp _seed/demo.rs $OUT/ 2>/dev/null || true
 {
 echo "== with patch + demo: package tests (expect only the demo to fail)"
-cargo test --offline -p $PKG $EXTRA_PKGS 2>&1 | grep -E "^test result|FAILED|failed" | head -8
+cargo test --offline -p $PKG $EXTRA_PKGS 2>&1 | grep -E "^test result|FAILED|failed" | head -30
 echo "== with patch reverted: demo (expect pass)"
 git apply -R _seed/patch.diff
 cargo test --offline -p $PKG $FILTER 2>&1 | grep -E "^test result|FAILED|failed" | head -5
